@@ -122,7 +122,24 @@ def run(ctx):
             for a in arms:
                 if bid in excl[a] or bid == arms[a]:
                     assigns.setdefault(a, []).append((bid, t))
-    ctx.ob('C09.r2', F.name, 'delete command does not rewind filter progress', not assigns.get('Delete'), assignments=len(assigns.get('Delete', [])))
+    # discarding the pending matched blocks (r3) drops blocks that the KEPT scripts still need: for the commands that keep the
+    # other scripts (partial, delete) the progress must be rewound before the earliest discarded range (F29)
+    em = P.call_sites(F, 'Storage::get_earliest_matched_blocks')
+    flows = False
+    reach_ok = False
+    if em:
+        eb = em[0][0]
+        for bid, blk in F.blocks.items():
+            if blk.cleanup:
+                continue
+            for st in blk.stmts:
+                if st.kind == 'assign' and st.lhs.strip() == mbn and any(o[0] == 'call' and o[1] == 'Storage::get_earliest_matched_blocks' for o in du.origins(st.rhs, stop_at_calls=False)):
+                    flows = True
+        reach_ok = all(eb in cfg.reachable_from([arms[a]]) for a in ('Partial', 'Delete') if a in arms)
+    ctx.ob('C09.r2', F.name, 'partial / delete rewind the filter progress before the earliest pending matched range they discard',
+           bool(em) and flows and reach_ok, at=em[0][1].span if em else None,
+           failing_history=None if (em and flows and reach_ok) else 'A@20 kept, filters 21..27 checked with a matched block pending, min filtered 27; set_scripts(delete B) or '
+           'set_scripts(partial C@1000): pending record cleared, progress stays 27: the matched block is never downloaded for A')
     # All: Some(ss.block_number) chosen when smaller than the current candidate
     alls = assigns.get('All', [])
     gtc = [c for c in P.closures_of(F, transitive=False) if any(x[2] in ('Gt', 'Lt') and x[5].lhs.strip() == '_0' for x in ctx.cmp_stmts(c))]
